@@ -69,9 +69,10 @@ func c11ParamFlow(e *Env) {
 	}
 	// (2) client.Start: "-p", `"` + escapeArg(opts.Params) + `"`
 	st := e.Fn("internal/client", "(*client).Start")
-	esc := e.FnQuiet("internal/client", "escapeArg")
 	if st != nil {
-		okFlag, okVal := false, false
+		okFlag := false
+		var encs []string
+		var site ssa.Instruction
 		for _, b := range st.Blocks {
 			for _, in := range b.Instrs {
 				c, isC := in.(*ssa.Call)
@@ -81,28 +82,37 @@ func c11ParamFlow(e *Env) {
 				for _, el := range appendedElems(c) {
 					if s, isS := ir.ConstString(el); isS && (s == "-p" || s == "--params") {
 						okFlag = true
+						continue
 					}
-					if sc, isCall := el.(*ssa.Call); isCall && ir.IsCallTo(&sc.Call, "fmt.Sprintf") {
-						f, _ := ir.ConstString(sc.Call.Args[0])
-						tr := &ir.Tracer{C: e.C}
-						var inner *ssa.Call
-						for _, l := range tr.Trace(sc.Call.Args[1]) {
-							if l.Kind == "call" {
-								inner, _ = l.V.(*ssa.Call)
-							}
-						}
-						if (f == `"%s"` || f == "%s" || f == "%q") && inner != nil && esc != nil && inner.Call.StaticCallee() == esc && e.IsFieldRead(inner.Call.Args[0], nil, "Params") {
-							okVal = true
-						}
-					}
-					if e.IsFieldRead(el, nil, "Params") {
-						okVal = true
+					if kinds, fromParams := c11Encoding(e, el, 0); fromParams {
+						encs = append(encs, kinds...)
+						site = in
 					}
 				}
 			}
 		}
-		r.Check(okFlag && okVal, "client.Start: -p \"escapeArg(opts.Params)\"", e.Pos(st.Pos()),
-			"the spawned start command does not receive the caller's parameters (or receives them transformed by something other than escapeArg and quoting)")
+		writer := "none"
+		switch {
+		case containsStr(encs, "go-quote"):
+			writer = "go-quote"
+		case containsStr(encs, "plain-wrap"):
+			writer = "plain-wrap"
+		}
+		pos := e.Pos(st.Pos())
+		if site != nil {
+			pos = e.InstrPos(site)
+		}
+		r.Check(okFlag && site != nil, "client.Start: the -p argument derives from opts.Params", pos,
+			"the spawned start command does not receive the caller's parameters")
+		// writer / reader agreement on the quoting of the -p argument
+		reader := "none"
+		if rq := e.FnQuiet("cmd", "removeQuotes"); rq != nil {
+			reader = c11Decoding(rq)
+		}
+		agree := (writer == "plain-wrap" && reader == "strip-ends") || (writer == "go-quote" && reader == "unquote") || (writer == "none" && reader == "none")
+		r.Check(agree, "start parameters: the client's quoting of -p and the start command's unquoting agree", pos,
+			"the API client encodes the parameter string as `"+writer+"` but the start command decodes `"+reader+"`: with Go-style quoting on one side only, every `\"` or `\\` inside the parameters reaches the DAG with a stray backslash (or loses one)",
+			"writer encoding: "+writer, "reader decoding: "+reader)
 	}
 	// (3) CLI: dag.Load(…, removeQuotes(flag params))
 	sp := e.P.Pkg("cmd")
@@ -139,6 +149,151 @@ func c11ParamFlow(e *Env) {
 				"the command does not load the DAG with the parameters given on its command line")
 		}
 	}
+}
+
+func containsStr(ss []string, x string) bool {
+	for _, s := range ss {
+		if s == x {
+			return true
+		}
+	}
+	return false
+}
+
+// c11Encoding classifies how v is assembled from the Params field: the quoting
+// steps on the way ("plain-wrap": surrounded by literal double quotes;
+// "go-quote": strconv.Quote / %q, which also escapes inner quotes and
+// backslashes) and whether it derives from Params at all.
+func c11Encoding(e *Env, v ssa.Value, depth int) (kinds []string, fromParams bool) {
+	if depth > 8 || v == nil {
+		return nil, false
+	}
+	v = ir.Resolve(v)
+	if e.IsFieldRead(v, nil, "Params") {
+		return nil, true
+	}
+	switch x := v.(type) {
+	case *ssa.MakeInterface:
+		return c11Encoding(e, x.X, depth+1)
+	case *ssa.Convert:
+		return c11Encoding(e, x.X, depth+1)
+	case *ssa.Phi:
+		for _, ed := range x.Edges {
+			k, f := c11Encoding(e, ed, depth+1)
+			kinds = append(kinds, k...)
+			fromParams = fromParams || f
+		}
+		return
+	case *ssa.BinOp:
+		if x.Op == token.ADD {
+			k1, f1 := c11Encoding(e, x.X, depth+1)
+			k2, f2 := c11Encoding(e, x.Y, depth+1)
+			kinds = append(append(kinds, k1...), k2...)
+			for _, side := range []ssa.Value{x.X, x.Y} {
+				if s, ok := ir.ConstString(side); ok && strings.Contains(s, "\"") && (f1 || f2) {
+					kinds = append(kinds, "plain-wrap")
+				}
+			}
+			return kinds, f1 || f2
+		}
+	case *ssa.Call:
+		name := ir.CalleeName(&x.Call)
+		switch {
+		case name == "fmt.Sprintf":
+			f, _ := ir.ConstString(x.Call.Args[0])
+			for _, a := range x.Call.Args[1:] {
+				// variadic: elements of the slice literal
+				for _, el := range sliceElems(a) {
+					k, fp := c11Encoding(e, el, depth+1)
+					kinds = append(kinds, k...)
+					fromParams = fromParams || fp
+				}
+			}
+			if fromParams {
+				if strings.Contains(f, "%q") {
+					kinds = append(kinds, "go-quote")
+				} else if strings.Contains(f, "\"%s\"") || strings.Contains(f, "\"%v\"") {
+					kinds = append(kinds, "plain-wrap")
+				}
+			}
+			return
+		case strings.HasPrefix(name, "strconv.Quote") || strings.HasPrefix(name, "strconv.AppendQuote"):
+			_, fp := c11Encoding(e, x.Call.Args[len(x.Call.Args)-1], depth+1)
+			return []string{"go-quote"}, fp
+		}
+		if sc := x.Call.StaticCallee(); sc != nil && e.P.Funcs[sc] {
+			for _, a := range x.Call.Args {
+				k, fp := c11Encoding(e, a, depth+1)
+				if fp {
+					kinds = append(kinds, k...)
+					fromParams = true
+				}
+			}
+			if fromParams && e.reachesStatic(sc, func(f *ssa.Function) bool {
+				return len(ir.CallsIn(f, func(c *ssa.CallCommon) bool {
+					n := ir.CalleeName(c)
+					if strings.HasPrefix(n, "strconv.Quote") || strings.HasPrefix(n, "strconv.AppendQuote") {
+						return true
+					}
+					if n == "fmt.Sprintf" || n == "fmt.Fprintf" {
+						for _, a := range c.Args {
+							if s, ok := ir.ConstString(a); ok && strings.Contains(s, "%q") {
+								return true
+							}
+						}
+					}
+					return false
+				})) > 0
+			}) {
+				kinds = append(kinds, "go-quote")
+			}
+			return
+		}
+	}
+	return nil, false
+}
+
+// sliceElems: the elements of a variadic slice literal, or the value itself.
+func sliceElems(v ssa.Value) []ssa.Value {
+	if sl, ok := v.(*ssa.Slice); ok {
+		if al, ok := sl.X.(*ssa.Alloc); ok {
+			var out []ssa.Value
+			for _, ref := range *al.Referrers() {
+				if ia, ok := ref.(*ssa.IndexAddr); ok {
+					for _, r2 := range *ia.Referrers() {
+						if st, ok := r2.(*ssa.Store); ok && st.Addr == ia {
+							out = append(out, st.Val)
+						}
+					}
+				}
+			}
+			return out
+		}
+	}
+	return []ssa.Value{v}
+}
+
+// c11Decoding classifies the start command's unquoting helper.
+func c11Decoding(f *ssa.Function) string {
+	for _, g := range ir.WithClosures(f) {
+		for _, b := range g.Blocks {
+			for _, in := range b.Instrs {
+				switch x := in.(type) {
+				case *ssa.Call:
+					if strings.HasPrefix(ir.CalleeName(&x.Call), "strconv.Unquote") {
+						return "unquote"
+					}
+				case *ssa.Slice:
+					if x.Low != nil && x.High != nil {
+						if k, ok := ir.ConstInt(x.Low); ok && k == 1 {
+							return "strip-ends"
+						}
+					}
+				}
+			}
+		}
+	}
+	return "none"
 }
 
 func c11OutputStore(e *Env) {
